@@ -6,7 +6,7 @@ from lib import hx, unhx
 COQ_TARGETS = ["props/C20.vo"]
 RELEASE_TOO = True
 RULE = ("eset cases: random sequences (1..40 ops) of insert / get / get_mut+assign / get_or_insert(_with/_default) / remove / "
-        "contains / clear / len over five value types (two zero-sized, two same-layout newtypes, one String), biased to removals "
+        "contains / clear / len over five value types (two zero-sized, two same-layout newtypes, one String) and 96 further same-layout types (stores of 9..96 types filled, partly emptied, cleared while large and refilled in another order), biased to removals "
         "from sets of >= 3 types followed by look-ups; walk cases: random tree shapes (wide, deep > 300 levels with siblings below "
         "depth 256, attributes and ranges on every node) with walk, walk_mut and replace on alternate levels; oracle: Python dict "
         "model of the storage, pre-order/depth specification of the traversal, replace preserves children, range and attributes. "
@@ -37,6 +37,36 @@ def gen_eset(rng):
         else:
             ops.append("l")
     ops += ["l"] + ["g%d" % t for t in range(7)]
+    return ops
+
+
+def gen_eset_many(rng):
+    """stores holding many types at once: fill, remove some, look everything up; clear while large, refill in another order"""
+    k = rng.choice([9, 10, 12, 17, 33, 64, 65, 96])
+    pool = rng.sample(range(7, 103), k) + rng.sample(range(0, 7), rng.choice([0, 2, 7]))
+    ops = []
+    for t in pool:
+        ops.append("i%d,%d" % (t, t * 3 + 1))
+    ops.append("l")
+    for round_ in range(rng.choice([1, 2, 3])):
+        gone = rng.sample(pool, rng.choice([1, 2, len(pool) // 3, len(pool) // 2]))
+        for t in gone:
+            ops.append("r%d" % t)
+            if rng.random() < 0.3:
+                ops += ["h%d" % u for u in rng.sample(pool, min(4, len(pool)))]
+        ops.append("l")
+        ops += ["g%d" % t for t in pool] + ["h%d" % t for t in pool]
+        if rng.random() < 0.6:
+            ops.append("c")
+            ops.append("l")
+            pool = rng.sample(range(7, 103), rng.choice([3, 9, 11, 20, 70]))
+            rng.shuffle(pool)
+        for t in pool:
+            ops.append(rng.choice(["i%d,%d", "o%d,%d", "i%d,%d"]) % (t, t + round_))
+        for t in rng.sample(pool, min(5, len(pool))):
+            ops.append("m%d,%d" % (t, 5))
+        ops += ["d%d" % t for t in rng.sample(range(7, 103), 3)]
+    ops += ["l"] + ["g%d" % t for t in range(0, 103)]
     return ops
 
 
@@ -124,6 +154,9 @@ def cases(rng, tier, Case):
     for _ in range(n):
         ops = gen_eset(rng)
         res.append(Case("eset " + ";".join(ops), "eset", {"ops": ops}))
+    for _ in range(n // 5):
+        ops = gen_eset_many(rng)
+        res.append(Case("eset " + ";".join(ops), "eset-many", {"ops": ops}))
     for _ in range(n // 4):
         sh = gen_shape(rng, False)
         res.append(Case("walk " + sh, "walk", {"shape": sh}))
